@@ -128,7 +128,7 @@ def _ofs(rel: int) -> bytes:
 
 
 def write_pack(objs):
-    """objs: ("blob", data) | ("ofs_delta", index of the base entry (earlier), delta_bytes).
+    """objs: ("blob", data) | ("obj", type_num, data) | ("ofs_delta", index of the base entry (earlier), delta_bytes).
     -> (pack bytes, [offset of each entry])."""
     parts = [b"PACK", struct.pack(">LL", 2, len(objs))]
     pos = 12
@@ -137,6 +137,8 @@ def write_pack(objs):
         offs.append(pos)
         if o[0] == "blob":
             e = _obj_header(3, len(o[1])) + zlib.compress(o[1], 1)
+        elif o[0] == "obj":
+            e = _obj_header(o[1], len(o[2])) + zlib.compress(o[2], 1)
         else:
             e = _obj_header(6, len(o[2])) + _ofs(pos - offs[o[1]]) + zlib.compress(o[2], 1)
         parts.append(e)
